@@ -159,6 +159,9 @@ class _OrbitCorrectionService(_DynamicsServiceBase):
 
         self.domain_obj.dynamics.reset()
         self.domain_obj.dynamics._initial_state = x_full
+        # Derived attributes belong to the uncorrected state even if the period is unchanged
+        self.domain_obj.dynamics._trajectory = None
+        self.domain_obj.dynamics._stability_info = None
         self.domain_obj.dynamics.period = 2.0 * half_period
 
         return payload
